@@ -111,6 +111,12 @@ def _c17_reparent_mark(v):
         and m.get("validity_error") is True and "AddMarkStep" in (m.get("A"), m.get("B"))
 
 
+@predicate("C07-can-append-empty-node-of-unrelated-type")
+def _c07_can_append_empty(v):
+    m = v["mech"]
+    return v["oracle"] == "can_append" and m.get("empty_argument") is True and m.get("expected") is True and m.get("types_share_a_first_child") is False
+
+
 @predicate("C17-reparenting-mark-step-diverges")
 def _c17_reparent_mark_div(v):
     m = v["mech"]
@@ -129,7 +135,12 @@ def _c18_leak(v):
     # the node with the rest of the node's content continuing in it, or put in front of it with
     # equal leading tokens).  The slice side of the fitter, which does have a guard, is judged
     # separately (oracle slice-isolating-node-opened) and never matches here.
-    return v["oracle"] in ("leaked", "node-split")
+    if v["oracle"] not in ("leaked", "node-split"):
+        return False
+    # why the document side put payload outside: a payload node no level inside accepts directly
+    # (first pass goes outwards before wrapping is tried), an open node of the slice joined with an
+    # equally typed ancestor outside, or insert_point walking outwards (replace_range_with)
+    return m.get("no_inside_level_accepts") is True or m.get("spine_type_is_outer_ancestor") is True or m.get("op") == "replace_range_with"
 
 
 @predicate("C11-slice-node-open-on-both-sides")
